@@ -181,7 +181,9 @@ func vh_direct_writer() {
 	if held {
 		sem <- struct{}{}
 	}
-	vAssume(ctxDone || closed || !held) // otherwise the writer legitimately waits
+	// with the semaphore held, a live context and an open connection the writer must WAIT (the engine ends
+	// that path as blocked, which this entry allows); it must never write meanwhile - frames of concurrent
+	// direct writers are kept whole by this semaphore alone, with or without a write timeout
 	c := &deadlineContextWriter{w: conn, timeout: time.Duration(vI64("timeout")), semaphore: sem, quit: quit}
 	n, err := c.writeContext(ctx, p)
 	if conn.writeCalls > 0 {
